@@ -53,28 +53,33 @@ func main() {
 	r.Assume("crash points are entries of file-system-mutating system calls as recognised by tools/crashat.c; a kill inside one write(2) is not explored (the data goes to a temporary file)")
 	r.Assume("Get of an address whose only matching entries are malformed (undecodable auth) is not judged")
 
+	byKey := func(res worker.Result) {
+		for _, v := range res.Viol {
+			r.Add("violations["+v.Key+"]", 1)
+		}
+	}
 	t0 := time.Now()
 	lap := func(name string) {
 		r.Set("wall_s_"+name, float64(int(time.Since(t0).Seconds()*10))/10)
 		t0 = time.Now()
 	}
-	worker.Run(r, worker.Opts{Phase: "seq", Total: r.N(600, 12000), Batch: 25})
+	worker.Run(r, worker.Opts{Phase: "seq", Total: r.N(600, 12000), Batch: 25, OnResult: byKey})
 	lap("seq")
 
 	if os.Getenv("VERIF_CRASHAT") == "" {
 		r.Violation("harness:no-crashat", "VERIF_CRASHAT is not set", nil)
 	} else {
-		worker.Run(r, worker.Opts{Phase: "crash", Total: r.N(110, 2200), Batch: 5})
+		worker.Run(r, worker.Opts{Phase: "crash", Total: r.N(110, 2200), Batch: 5, OnResult: byKey})
 		r.Set("crash_points_exhaustive_per_case", r.Counter("crash_cases_fully_enumerated") == r.Counter("crash_cases_with_points"))
 	}
 	lap("crash")
 
-	worker.Run(r, worker.Opts{Phase: "conc", Total: r.N(300, 10000), Batch: 15})
+	worker.Run(r, worker.Opts{Phase: "conc", Total: r.N(240, 10000), Batch: 15, OnResult: byKey})
 	lap("conc")
 	if bin := os.Getenv("VERIF_RACE_BIN"); bin != "" {
 		raceDir, _ := os.MkdirTemp("", "verif-c18-race-")
 		defer os.RemoveAll(raceDir)
-		worker.Run(r, worker.Opts{Phase: "race", Total: r.N(100, 2000), Batch: 5, Bin: bin,
+		worker.Run(r, worker.Opts{Phase: "race", Total: r.N(60, 2000), Batch: 5, Bin: bin, OnResult: byKey,
 			Env: []string{"GORACE=halt_on_error=0 log_path=" + filepath.Join(raceDir, "race")}})
 		n := countRaceReports(raceDir, r)
 		r.Set("race_reports_in_library", n)
@@ -195,7 +200,9 @@ type seqStep struct {
 func runSeq(i int, rng *rand.Rand) (res worker.Result) {
 	hosts, pool, allForms := genPool(rng)
 	_ = hosts
-	d := genDoc(rng, docOpts{entryKeys: allForms, emptyCreds: false, bigDocument: rng.IntN(40) == 0})
+	// a fixed slice of the cases carries "credsStore": "" (violation key file:credsStore-empty-dropped)
+	emptyCS := i%40 == 13
+	d := genDoc(rng, docOpts{entryKeys: allForms, emptyCreds: emptyCS, mustExist: emptyCS, bigDocument: rng.IntN(40) == 0})
 	kind := "file"
 	if !d.HasHelpers && rng.IntN(4) == 0 {
 		kind = "dyn"
